@@ -381,7 +381,7 @@ func misbehave(st map[string]any, site, n int) {
 // Act is the body of every action block.
 func Act(gs map[string]any, site, line, col, off int, text []byte, st map[string]any, labels ...any) (any, error) {
 	c, n, f := event(gs, KAct, site, line, col, off, text, st, labels)
-	if c.Nested != nil && c.Plan.Nests(site, n) {
+	if c.Nested != nil && c.NestedRuns < 16 && c.Plan.Nests(site, n) {
 		c.NestedRuns++
 		c.Nested()
 	}
